@@ -121,6 +121,25 @@ fn walk(items: &[syn::Item], file: &str, module: &str, out: &mut Vec<String>) {
                     esc(file), esc(module), esc(&tr), esc(&toks(&im.self_ty)), attrs_json(&im.attrs), consts.join(","), fns.join(",")
                 ));
             }
+            syn::Item::Fn(f) => {
+                out.push(format!(
+                    "{{\"kind\":\"fn\",\"file\":{},\"module\":{},\"name\":{},\"sig\":{},\"attrs\":{},\"body\":{}}}",
+                    esc(file), esc(module), esc(&f.sig.ident.to_string()), esc(&toks(&f.sig)), attrs_json(&f.attrs), esc(&toks(&f.block))
+                ));
+            }
+            syn::Item::Trait(t) => {
+                let mut fns = Vec::new();
+                for ti in &t.items {
+                    if let syn::TraitItem::Fn(f) = ti {
+                        let body = f.default.as_ref().map(|b| toks(b)).unwrap_or_default();
+                        fns.push(format!("{{\"name\":{},\"body\":{}}}", esc(&f.sig.ident.to_string()), esc(&body)));
+                    }
+                }
+                out.push(format!(
+                    "{{\"kind\":\"trait\",\"file\":{},\"module\":{},\"name\":{},\"attrs\":{},\"fns\":[{}]}}",
+                    esc(file), esc(module), esc(&t.ident.to_string()), attrs_json(&t.attrs), fns.join(",")
+                ));
+            }
             syn::Item::Mod(m) => {
                 if let Some((_, items)) = &m.content {
                     // skip unit tests
